@@ -111,18 +111,28 @@ func wsmsgItemsStr(items []wsmsgItem) string {
 
 type wsmsgStream struct {
 	*memStream
-	w *bufio.Writer
+	w     *bufio.Writer
+	reads int // transport reads so far
+	limit int // more reads than this cannot be needed: the reader is spinning (e.g. on zero-length reads)
+}
+
+func (s *wsmsgStream) log(room, n int) {
+	fmt.Fprintf(s.w, "? rd %d %d\n", room, n)
+	s.reads++
+	if s.reads > s.limit {
+		panic("wsmsg: the reader keeps reading from the transport without making progress")
+	}
 }
 
 func (s *wsmsgStream) Read(b []byte) (int, error) {
 	n, err := s.memStream.Read(b)
-	fmt.Fprintf(s.w, "? rd %d %d\n", len(b), n)
+	s.log(len(b), n)
 	return n, err
 }
 
 func (s *wsmsgStream) AsyncRead(b []byte, cb sonic.AsyncCallback) {
 	s.memStream.AsyncRead(b, func(err error, n int) {
-		fmt.Fprintf(s.w, "? rd %d %d\n", len(b), n)
+		s.log(len(b), n)
 		cb(err, n)
 	})
 }
@@ -135,7 +145,7 @@ func wsmsgRun(script []string, w *bufio.Writer) {
 	if wsIoc == nil {
 		wsIoc = sonic.MustIO()
 	}
-	dog := time.AfterFunc(60*time.Second, func() {
+	dog := time.AfterFunc(30*time.Second, func() {
 		fmt.Fprintf(w, "< hang\n")
 		w.Flush()
 		os.Exit(3)
@@ -224,7 +234,12 @@ func wsmsgRead(w *bufio.Writer, api string, async bool, max, bufSize int, segs [
 		panic(err)
 	}
 	ms := newMemStream()
-	st := &wsmsgStream{memStream: ms, w: w}
+	total := 0
+	for _, s := range segs {
+		total += len(s)
+	}
+	// every read but one per call returns at least one byte
+	st := &wsmsgStream{memStream: ms, w: w, limit: total + bound + 8}
 	if err := ws.VerifAttach(st); err != nil {
 		panic(err)
 	}
